@@ -170,6 +170,8 @@ def seeded_for(pid):
         if not os.path.exists(mp):
             continue
         meta = json.load(open(mp))
+        if meta.get('superseded'):
+            continue          # the code the patch edits was rewritten by a later repair; kept for the record only
         if any(str(x).startswith(pid + '-') for x in meta.get('detected_by', [])):
             out.append(os.path.join(root, name))
     return out
